@@ -95,6 +95,7 @@ const (
 	LocField
 	LocElem
 	LocGlobal
+	LocVararg
 )
 
 type Loc struct {
@@ -153,6 +154,7 @@ type State struct {
 	hypSeen   map[string]bool
 	frames    []*inlFrame
 	exempt    []string // key|base of arrays owned by monitors (never framed)
+	vararg    map[ssa.Value][]Val // element values of compiler-generated variadic argument arrays
 }
 
 func (s *State) clone() *State {
@@ -192,6 +194,12 @@ func (s *State) clone() *State {
 	}
 	n.frames = append([]*inlFrame(nil), s.frames...)
 	n.exempt = s.exempt
+	if s.vararg != nil {
+		n.vararg = make(map[ssa.Value][]Val, len(s.vararg))
+		for k, v := range s.vararg {
+			n.vararg[k] = append([]Val(nil), v...)
+		}
+	}
 	n.callN = make(map[string]int, len(s.callN))
 	for k, v := range s.callN {
 		n.callN[k] = v
@@ -284,7 +292,12 @@ func (fx *FuncCtx) mapKeys(mt *types.Map) (dom HeapKey, val []HeapKey, kc comp, 
 	dom = HeapKey{"MD$" + id, "(Array Int (Array " + kc.sort + " Bool))"}
 	vcs = fx.mode.comps(mt.Elem())
 	for _, vc := range vcs {
-		val = append(val, HeapKey{"MV$" + id + vc.suffix, "(Array Int (Array " + kc.sort + " " + vc.sort + "))"})
+		hk := HeapKey{"MV$" + id + vc.suffix, "(Array Int (Array " + kc.sort + " " + vc.sort + "))"}
+		val = append(val, hk)
+		if vc.kind == "ref" {
+			fx.refKeys[hk.Key] = 2
+			fx.mapKeySort[hk.Key] = kc.sort
+		}
 	}
 	return
 }
@@ -439,6 +452,10 @@ func (fx *FuncCtx) store(st *State, l *Loc, v Val) {
 			fx.keySorts[k.Key] = k.Sort
 			st.heap[k.Key] = v.C[i]
 		}
+	case LocVararg:
+		var i int
+		fmt.Sscan(l.Idx, &i)
+		st.vararg[l.Cell][i] = v
 	}
 }
 
